@@ -215,6 +215,9 @@ func c04Scenario(c *Ctx) {
 		default:
 			exp = now + 30 + int64(c.Draw("gen", 1700))
 		}
+		if c.Draw("far", 6) == 5 {
+			exp = now + 1801 + int64(c.Draw("far", 1800)) // lives up to an hour: only acceptable later, never now
+		}
 		tx := net.SignedTransfer(net.Founder, net.Users[c.Draw("gen", len(net.Users))].Addr, big.NewInt(int64(1+c.Draw("gen", 1000))), uint64(exp), fmt.Sprintf("c04-%d", len(pool)))
 		return tx
 	}
@@ -274,7 +277,23 @@ func c04Scenario(c *Ctx) {
 			if err != nil {
 				panic(err)
 			}
-			box := types.NoReceiverTransaction(net.Founder.Addr, big.NewInt(0), 2000000, big.NewInt(1e9), data, params.BoxTx, net.P.ChainID, base.Expiration(), "", fmt.Sprintf("c04-box-%d", len(pool)))
+			// the box usually expires with its content; sometimes it has a lifetime of its own (every sub-transaction
+			// must still be inside ITS window at the block's time, whatever the box says)
+			boxExp := base.Expiration()
+			switch c.Draw("boxexp", 5) {
+			case 1:
+				boxExp = uint64(now + 30)
+			case 2:
+				boxExp = uint64(now + 1800)
+			case 3:
+				boxExp = base.Expiration() + 900
+			case 4:
+				boxExp = uint64(now + 1 + int64(c.Draw("boxexp", 1800)))
+			}
+			if boxExp != base.Expiration() {
+				c.Fault("box_lifetime_differs_from_content")
+			}
+			box := types.NoReceiverTransaction(net.Founder.Addr, big.NewInt(0), 2000000, big.NewInt(1e9), data, params.BoxTx, net.P.ChainID, boxExp, "", fmt.Sprintf("c04-box-%d", len(pool)))
 			sb := signTx(box, net.Founder)
 			pool = append(pool, sb)
 			c.Fault("wrapped_in_box")
